@@ -64,11 +64,13 @@ class Ret:
 
 
 class UnmarshalFacts:
-    def __init__(self, ctx, key=None):
+    def __init__(self, ctx, key=None, assume_type=None):
         self.ctx = ctx
         prog = ctx.prog
-        self.pol = L.KeyPolicy(prog, 'commands.INDEX_MAPPING', key)
+        self.pol = L.KeyPolicy(prog, 'commands.INDEX_MAPPING', key,
+                               assume_type)
         self.data = codec.buf('data_in')
+        self.pol.data = self.data
         self.it, self.outs, _ = L.run_unmarshal(ctx, self.pol, self.data)
         self.rets = [Ret(o, self.it, self.data) for o in self.outs
                      if o.kind == 'return']
